@@ -23,6 +23,8 @@ def run(chk):
         for tnt in (0, 1):
             lines.append('asucube\t%d %d %d' % (i, tnt, ncube))
             lines.append('o_orbit\t%d %d %d' % (i, tnt, norb))
+            if tnt == 0:
+                lines.append('o_pred\t%d %d' % (i, 4 if quick else 8))
             for _ in range(4 if quick else 200):
                 m = rng.choice([10, 100, 10000])
                 hkl = [rng.randint(-m, m) for _ in range(3)]
@@ -50,8 +52,8 @@ def run(chk):
                     replay={'harness': 'h_sym', 'line': cmd + '\t' + args}, found_input=False)
     for (cmd, args, r) in res['oracle_fail']:
         w = args.split()
-        chk.violate('oracle', 'C05 orbit count: row %s tnt=%s: %s' % (w[0], w[1], r),
-                    'number of orbit members inside the ASU differs from 1 (first offending hkl and count given)',
+        chk.violate('oracle', 'C05 %s: row %s %s: %s' % (cmd, w[0], ('tnt=' + w[1]) if cmd == 'o_orbit' else '', r),
+                    'oracle on gemmi: orbit members inside the ASU / predicates vs their definitions (first offending hkl given)',
                     replay={'harness': 'h_sym', 'line': cmd + '\t' + args})
     for (line, kind, err) in res['crashes']:
         chk.violate('crash', 'h_sym %s on %s' % (kind, line), err, replay={'harness': 'h_sym', 'line': line})
